@@ -6,6 +6,7 @@ import CedarVerif.Driver.Ops.PolicySet
 import CedarVerif.Driver.Ops.Est
 import CedarVerif.Driver.Ops.Fmt
 import CedarVerif.Driver.Ops.Json
+import CedarVerif.Driver.Ops.Partial
 /-
 Line-protocol driver: one request per line on stdin, one reply per line on stdout.
 Unknown or malformed requests answer `(bad-op)`; the driver never defaults.
@@ -22,7 +23,8 @@ def handlers : List (Sexp → Option String) := [
   Ops.handlePSet,
   Ops.handleEst,
   Ops.handleFmt,
-  Ops.handleJson
+  Ops.handleJson,
+  Ops.handlePartial
 ]
 
 def handle (x : Sexp) : String :=
